@@ -320,6 +320,8 @@ class Interp:
             return self.static_value(r, ctx)
         if name in self.builtins:
             return self.builtins[name]
+        if name == "__name__":
+            return fr.module.name
         if name in EXC_BASES:
             return ExcClass(name)
         raise Unsupported(f"unknown name {name} in {fr.module.name}")
